@@ -209,8 +209,13 @@ func inspect(data, base []byte) fileReport {
 		f.N++
 	}
 	if rep.hardErr != "" && len(order) == 0 {
-		byKind["unreadable"] = &finding{Kind: "unreadable", Msg: rep.hardErr, N: 1, Enc: rep.encrypted}
-		order = append(order, "unreadable")
+		// Open gave up before it could record a defect of its own (e.g. an empty output)
+		kind := "unreadable"
+		if strings.Contains(rep.hardErr, "no %PDF- header") {
+			kind = pdfstrict.KindHeader
+		}
+		byKind[kind] = &finding{Kind: kind, Msg: rep.hardErr + fmt.Sprintf(" (%d bytes)", len(data)), N: 1, Enc: rep.encrypted}
+		order = append(order, kind)
 	}
 	for _, k := range order {
 		rep.findings = append(rep.findings, *byKind[k])
